@@ -4,9 +4,11 @@ package main
 
 import (
 	"fmt"
+	"runtime"
 	"strconv"
 	"sync"
 	"sync/atomic"
+	"time"
 
 	sentinel "github.com/alibaba/sentinel-golang/api"
 	"github.com/alibaba/sentinel-golang/core/base"
@@ -318,5 +320,194 @@ func runConc(id int, r *rng.R, clk *vclock.Clock) (*concInput, []chainh.Failure,
 	if _, err := hotspot.LoadRules(nil); err != nil {
 		panic(err)
 	}
+	return in, fails, st
+}
+
+// ---- two goroutines exit the SAME entry -------------------------------------------------------
+//
+// A recording statistic slot parks inside OnCompleted of the first Exit until a second goroutine
+// has started its Exit of the same entry (and has been given a moment to get into it); then it
+// is released. Exit must be effective exactly once whatever the timing: one completion, gauge 0.
+
+type parkStat struct {
+	n       int64
+	entered chan struct{}
+	release chan struct{}
+}
+
+func (s *parkStat) Order() uint32                                           { return 7 }
+func (s *parkStat) OnEntryPassed(ctx *base.EntryContext)                    {}
+func (s *parkStat) OnEntryBlocked(_ *base.EntryContext, _ *base.BlockError) {}
+func (s *parkStat) OnCompleted(ctx *base.EntryContext) {
+	if atomic.AddInt64(&s.n, 1) == 1 {
+		close(s.entered)
+		<-s.release
+	}
+}
+
+type onceInput struct {
+	ID      int    `json:"id"`
+	Inb     bool   `json:"inb"`
+	Batch   uint32 `json:"batch"`
+	Err1    int64  `json:"err1"`
+	Err2    int64  `json:"err2"`
+	Waiters int    `json:"second_callers"`
+}
+
+func runOnceRace(id int, r *rng.R, clk *vclock.Clock) (*onceInput, []chainh.Failure, map[string]int) {
+	in := &onceInput{ID: id, Inb: r.Chance(1, 2), Batch: uint32(r.PickI(1, 2, 3)), Err1: r.PickI(0, 4), Err2: r.PickI(0, 5), Waiters: 1 + r.Intn(3)}
+	st := map[string]int{"once_race_cases": 1}
+	var fails []chainh.Failure
+	fail := func(clause, sig, f string, a ...interface{}) {
+		fails = append(fails, chainh.Failure{Clause: clause, Signature: sig, Detail: fmt.Sprintf(f, a...)})
+	}
+	clk.SetMs(chainh.CaseBaseMs(600000 + (id - onceBase)))
+	name := "co-" + strconv.Itoa(id)
+	park := &parkStat{entered: make(chan struct{}), release: make(chan struct{})}
+	sc := base.NewSlotChain()
+	sc.AddStatPrepareSlot(cPrep{})
+	sc.AddStatSlot(stat.DefaultSlot)
+	sc.AddStatSlot(park)
+	inb0 := chainh.NodeCounters(stat.InboundNode())
+	tt := base.Outbound
+	if in.Inb {
+		tt = base.Inbound
+	}
+	e, b := sentinel.Entry(name, sentinel.WithSlotChain(sc), sentinel.WithTrafficType(tt), sentinel.WithBatchCount(in.Batch))
+	if e == nil || b != nil {
+		fail("C01_outcome_unique", "unexpected-outcome", "Entry on a chain without rules was not admitted")
+		return in, fails, st
+	}
+	exit := func(err int64) {
+		defer func() { recover() }()
+		if err != 0 {
+			e.Exit(base.WithError(&cErr{err}))
+		} else {
+			e.Exit()
+		}
+	}
+	var wg sync.WaitGroup
+	wg.Add(1)
+	go func() { defer wg.Done(); exit(in.Err1) }()
+	<-park.entered
+	started := make(chan struct{}, in.Waiters)
+	for i := 0; i < in.Waiters; i++ {
+		wg.Add(1)
+		go func() { defer wg.Done(); started <- struct{}{}; exit(in.Err2) }()
+	}
+	for i := 0; i < in.Waiters; i++ {
+		<-started
+	}
+	time.Sleep(2 * time.Millisecond) // the second callers are now inside (or blocked in) Exit
+	close(park.release)
+	wg.Wait()
+	if n := atomic.LoadInt64(&park.n); n != 1 {
+		fail("C01_exit_idempotent", "concurrent-exit-completed-twice", "OnCompleted ran %d times for one entry exited from %d goroutines", n, 1+in.Waiters)
+	}
+	check := func(key string, v chainh.CntView) {
+		if v.Gauge != 0 {
+			sig := "gauge-nonzero-at-quiescence"
+			if v.Gauge < 0 {
+				sig = "negative-gauge"
+			}
+			fail("C01_gauge", sig, "%s: concurrency %d after concurrent exits of one entry", key, v.Gauge)
+		}
+		if v.Pass != int64(in.Batch) || v.Done != int64(in.Batch) {
+			fail("C01_completion_exact", "completion-counters-differ", "%s: pass %d complete %d for one entry of batch %d", key, v.Pass, v.Done, in.Batch)
+		}
+		wantErr := int64(0)
+		if in.Err1 != 0 {
+			wantErr = int64(in.Batch)
+		}
+		if v.Err != wantErr {
+			fail("C01_completion_exact", "error-attributed-to-wrong-entry", "%s: error count %d, the effective exit's error gives %d", key, v.Err, wantErr)
+		}
+	}
+	check("resource", chainh.NodeCounters(stat.GetResourceNode(name)))
+	if in.Inb {
+		iv := chainh.NodeCounters(stat.InboundNode())
+		iv.Pass -= inb0.Pass
+		iv.Done -= inb0.Done
+		iv.Err -= inb0.Err
+		iv.Gauge -= inb0.Gauge
+		check("inbound", iv)
+	}
+	return in, fails, st
+}
+
+// ---- first Entries of a resource that has no node yet ----------------------------------------
+//
+// Every round uses a fresh resource name; N goroutines are released at once on the first Entry of
+// that resource and keep their entries open. All of them must be visible on THE node of the
+// resource: gauge = pass = N while open, gauge 0 and complete = N after the exits.
+
+type freshInput struct {
+	ID     int `json:"id"`
+	Rounds int `json:"rounds"`
+	N      int `json:"goroutines"`
+}
+
+func runFreshNodeRace(id, rounds int, clk *vclock.Clock) (*freshInput, []chainh.Failure, map[string]int) {
+	in := &freshInput{ID: id, Rounds: rounds, N: 8}
+	st := map[string]int{"fresh_node_rounds": rounds}
+	var fails []chainh.Failure
+	fail := func(clause, sig, f string, a ...interface{}) {
+		if len(fails) < 5 {
+			fails = append(fails, chainh.Failure{Clause: clause, Signature: sig, Detail: fmt.Sprintf(f, a...)})
+		}
+	}
+	clk.SetMs(chainh.CaseBaseMs(700000 + (id - freshBase)))
+	for rd := 0; rd < rounds; rd++ {
+		name := "cf-" + strconv.Itoa(id) + "-" + strconv.Itoa(rd)
+		entries := make([]*base.SentinelEntry, in.N)
+		var ready, goFlag int32
+		var wg sync.WaitGroup
+		for g := 0; g < in.N; g++ {
+			wg.Add(1)
+			go func(g int) {
+				defer wg.Done()
+				atomic.AddInt32(&ready, 1)
+				for atomic.LoadInt32(&goFlag) == 0 {
+					runtime.Gosched()
+				}
+				e, _ := sentinel.Entry(name)
+				entries[g] = e
+			}(g)
+		}
+		for atomic.LoadInt32(&ready) != int32(in.N) {
+			runtime.Gosched()
+		}
+		atomic.StoreInt32(&goFlag, 1)
+		wg.Wait()
+		admitted := int64(0)
+		for _, e := range entries {
+			if e != nil {
+				admitted++
+			}
+		}
+		v := chainh.NodeCounters(stat.GetResourceNode(name))
+		if admitted != int64(in.N) {
+			fail("C01_outcome_unique", "unexpected-outcome", "round %d: %d of %d entries admitted without any rule", rd, admitted, in.N)
+		}
+		if v.Gauge != admitted {
+			fail("C01_gauge", "gauge-differs-from-live-entries", "round %d: %d entries of the fresh resource %s are open, its node reports concurrency %d", rd, admitted, name, v.Gauge)
+		}
+		if v.Pass != admitted {
+			fail("C01_token_conservation", "pass-plus-block-differs-from-requested", "round %d: %d tokens admitted on the fresh resource %s, its node counts pass %d", rd, admitted, name, v.Pass)
+		}
+		for _, e := range entries {
+			if e != nil {
+				e.Exit()
+			}
+		}
+		v = chainh.NodeCounters(stat.GetResourceNode(name))
+		if v.Gauge != 0 || v.Done != admitted {
+			fail("C01_completion_exact", "completion-counters-differ", "round %d: after the exits the node of %s reports concurrency %d, complete %d (expected 0, %d)", rd, name, v.Gauge, v.Done, admitted)
+		}
+		if len(fails) > 0 {
+			break
+		}
+	}
+	stat.ResetResourceNodeMap()
 	return in, fails, st
 }
